@@ -1,5 +1,6 @@
-(* codecs/av1/obu/leb128.go: WriteToLeb128, ReadLeb128 (with its 64-bit accumulator and
-   decodeLEB128), EncodeLEB128. *)
+(* codecs/av1/obu/leb128.go: WriteToLeb128, ReadLeb128, EncodeLEB128.  (decodeLEB128, the inverse of
+   EncodeLEB128 on the packed form, is no longer called by the library since the repair of D19: ReadLeb128
+   accumulates the 7-bit groups directly and so reads back every uint that WriteToLeb128 writes.) *)
 From Coq Require Import ZArith List Lia Bool.
 From RTP Require Import Base.Bits Base.Res Base.ListX.
 Import ListNotations.
@@ -15,22 +16,15 @@ Fixpoint write_leb128_aux (fuel : nat) (v : Z) : list Z :=
   end.
 Definition write_leb128 (v : Z) : list Z := write_leb128_aux 10 (u64 v).
 
-Fixpoint decode_leb_aux (fuel : nat) (inp out : Z) : Z :=
-  match fuel with
-  | O => out
-  | S f => let out := Z.lor out (Z.land inp 127) in
-           let inp := Z.shiftr inp 8 in
-           if inp =? 0 then out else decode_leb_aux f inp (u64 (Z.shiftl out 7))
-  end.
-Definition decode_leb (inp : Z) : Z := decode_leb_aux 9 inp 0.
-
-(* returns (value, bytes read); None = ErrFailedToReadLEB128 *)
+(* returns (value, bytes read); None = ErrFailedToReadLEB128
+   for i := range in { value |= (uint(in[i]) & 0x7f) << (7 * uint(i)); if in[i]&0x80 == 0 { return value, i+1 } }
+   (a shift count of 64 or more leaves nothing of a uint: u64 of the shifted group is 0 then) *)
 Fixpoint read_leb128_aux (l : list Z) (acc : Z) (i : Z) : option (Z * Z) :=
   match l with
   | [] => None
-  | b :: t => let acc := Z.lor acc b in
-              if Z.land b 128 =? 0 then Some (decode_leb acc, i + 1)
-              else read_leb128_aux t (u64 (Z.shiftl acc 8)) (i + 1)
+  | b :: t => let acc := Z.lor acc (u64 (Z.shiftl (Z.land b 127) (7 * i))) in
+              if Z.land b 128 =? 0 then Some (acc, i + 1)
+              else read_leb128_aux t acc (i + 1)
   end.
 Definition read_leb128 (l : list Z) : option (Z * Z) := read_leb128_aux l 0 0.
 
